@@ -6,10 +6,13 @@ import (
 	"fmt"
 	"os"
 	"path/filepath"
+	"runtime"
 	"strconv"
 	"strings"
+	"sync/atomic"
 	"testing"
 
+	goat "github.com/avos-io/goat"
 	"google.golang.org/grpc"
 	"google.golang.org/grpc/metadata"
 	"google.golang.org/grpc/stats"
@@ -151,7 +154,7 @@ func checkProp[C any](t *testing.T, id, sub string, gen func(*rapid.T) C, exec f
 	rapid.Check(t, func(rt *rapid.T) {
 		c := gen(rt)
 		if msg := runOne(t, id, sub, c, exec); msg != "" {
-			rt.Fatalf("%s/%s: %s", id, sub, msg)
+			rt.Fatalf("VERIF-FAIL %s/%s: %s", id, sub, msg)
 		}
 	})
 }
@@ -172,7 +175,7 @@ func enumProp[C any](t *testing.T, id, sub string, total int, mk func(i int) C, 
 	for i := si; i < total; i += sn {
 		c := mk(i)
 		if msg := runOne(t, id, sub, c, exec); msg != "" {
-			t.Fatalf("%s/%s case #%d: %s", id, sub, i, msg)
+			t.Fatalf("VERIF-FAIL %s/%s case #%d: %s", id, sub, i, msg)
 		}
 	}
 	kit.G().Count("enum."+sub+".total", 0)
@@ -271,3 +274,34 @@ func FuzzC20(f *testing.F) { fuzzProp(f, "C20", "main", genC20, execC20) }
 func FuzzC16(f *testing.F) { fuzzProp(f, "C16", "envelopes", genC16, execC16) }
 func FuzzC03(f *testing.F) { fuzzProp(f, "C03", "main", genC03, execC03) }
 func FuzzC04(f *testing.F) { fuzzProp(f, "C04", "main", genC04, execC04) }
+
+// spinBarrier makes the goroutines that reach the named hook points leave them in groups of k at (nearly) the same
+// nanosecond: each arrival spins until its group is complete. total is the number of arrivals expected (the last group
+// may be smaller). The windows it targets (a non-atomic counter, a check-then-act on shared state right after the point)
+// are a few instructions wide, which a channel-based gate does not hit reliably.
+func spinBarrier(points []string, total, k int) (remove func()) {
+	var arrived atomic.Int32
+	is := map[string]bool{}
+	for _, p := range points {
+		is[p] = true
+	}
+	goat.VerifSetHook(func(ctx context.Context, name string) {
+		if !is[name] {
+			return
+		}
+		t := int(arrived.Add(1))
+		target := ((t-1)/k + 1) * k
+		if target > total {
+			target = total
+		}
+		for i := 0; int(arrived.Load()) < target; i++ {
+			if i > 2000 {
+				runtime.Gosched()
+			}
+			if i > 2000000 {
+				return // the rest of the group never came (a call failed earlier): give up, no verdict depends on it
+			}
+		}
+	})
+	return func() { goat.VerifSetHook(nil) }
+}
